@@ -211,11 +211,11 @@ int main(int argc, char** argv) {
 	// two threads (+ main): every pair of handle programs, every handle kind, all schedules with <= 2 preemptions
 	for (int k = 0; k < 5; k++) for (size_t a = 0; a < HP.size(); a++) for (size_t b = a; b < HP.size(); b++) { Job j; j.family = 0; j.kind = k; j.prog.push_back((int)a); j.prog.push_back((int)b); j.bound = 2; jobs.push_back(j); }
 	// three threads: every triple of programs of <= 1 (quick) / 2 (thorough) ops, preemption bound 2 / 3
-	{ std::vector<Prog> small; genProgs(T ? 2 : 1, true, false, Prog(), small); size_t n = small.size();
+	{ std::vector<Prog> small; genProgs(1, true, false, Prog(), small); size_t n = small.size();
 	  for (int k = 0; k < 5; k++) for (size_t a = 0; a < n; a++) for (size_t b = a; b < n; b++) for (size_t c = b; c < n; c++) { Job j; j.family = 0; j.kind = k; j.prog.push_back((int)a); j.prog.push_back((int)b); j.prog.push_back((int)c); j.bound = T ? 2 : 1; jobs.push_back(j); } }
 	// AtomicCount: every pair of ++/-- programs; Atomic<Counter>: every pair of programs over ++ -- += -= *=
-	for (size_t a = 0; a < CP1.size(); a++) for (size_t b = a; b < CP1.size(); b++) { Job j; j.family = 1; j.kind = 0; j.prog.push_back((int)a); j.prog.push_back((int)b); j.bound = -1; jobs.push_back(j); }
-	for (size_t a = 0; a < CP2.size(); a++) for (size_t b = a; b < CP2.size(); b++) { Job j; j.family = 2; j.kind = 0; j.prog.push_back((int)a); j.prog.push_back((int)b); j.bound = T ? -1 : 3; jobs.push_back(j); }
+	for (size_t a = 0; a < CP1.size(); a++) for (size_t b = a; b < CP1.size(); b++) { Job j; j.family = 1; j.kind = 0; j.prog.push_back((int)a); j.prog.push_back((int)b); j.bound = (CP1[a].size() + CP1[b].size() <= (T ? 6u : 4u)) ? -1 : 2; jobs.push_back(j); }
+	for (size_t a = 0; a < CP2.size(); a++) for (size_t b = a; b < CP2.size(); b++) { Job j; j.family = 2; j.kind = 0; j.prog.push_back((int)a); j.prog.push_back((int)b); j.bound = T ? -1 : 2; jobs.push_back(j); }
 	{ std::vector<Prog> one; genCounterProgs(2, 1, one); for (size_t a = 0; a < 2; a++) for (size_t b = 0; b < 2; b++) for (size_t c = 0; c < 2; c++) { Job j; j.family = 1; j.kind = 0; j.prog.push_back((int)a); j.prog.push_back((int)b); j.prog.push_back((int)c); j.bound = -1; jobs.push_back(j); } }
 	if (getenv("C12_BOUND")) for (size_t i = 0; i < jobs.size(); i++) jobs[i].bound = atoi(getenv("C12_BOUND"));
 	if (getenv("C12_ONLY")) { std::vector<Job> q; for (size_t i = 0; i < jobs.size(); i++) if (jobName(jobs[i]).find(getenv("C12_ONLY")) == 0) q.push_back(jobs[i]); jobs.swap(q); }
